@@ -198,6 +198,19 @@ def compare(wd):
     return b_mis, c_mis, n_model, n_spec
 
 
+SHARED_FILES = ["src/consensus/encode.rs", "src/cryptonote/hash.rs", "src/util/key.rs", "src/internal_macros.rs"]
+
+
+def anchored_files(prop):
+    """files the property is anchored in (properties.jsonl) plus the files every codec / key operation goes through"""
+    for l in open(os.path.join(ROOT, "properties.jsonl")):
+        if l.strip():
+            d = json.loads(l)
+            if d["id"] == prop:
+                return sorted(set(d.get("anchors", {}).get("files", [])) | set(SHARED_FILES))
+    return SHARED_FILES
+
+
 def load_known():
     try: return json.load(open(os.path.join(ROOT, "known_findings.json")))
     except OSError: return {"known": [], "fixed": []}
@@ -271,6 +284,18 @@ def check(prop, tier, seed):
         # (three more seeds of the same tier below); they are listed in the evidence, and only a panic / abort / timeout /
         # out-of-bound allocation that is actually observed is a violation.
         escalate = bool(extra)
+    if eok:
+        # E7: which items of the anchored sources changed since the reviewed snapshot (fingerprints.json)? A changed item is
+        # never an alarm by itself; it ENLARGES the search of the properties anchored in that file (three more seeds).
+        try:
+            cur = json.load(open(os.path.join(WORK, "gen", "fingerprints.json")))
+            rev = json.load(open(os.path.join(ROOT, "fingerprints.json")))
+            files = set(anchored_files(prop))
+            changed = sorted(k for k in set(cur) | set(rev) if cur.get(k) != rev.get(k) and k.split("::")[0] in files)
+            A["source_changes"] = dict(items_fingerprinted=len(cur), changed_in_anchored_files=changed[:60], n_changed=len(changed))
+            if changed: escalate = True
+        except (OSError, ValueError) as e:
+            A["source_changes"] = dict(error=str(e))
     A["translator_notes"] = [n for n in EXTRACT_NOTES if any(tag in n for tag in P.get("gen_defs", [])) or not P.get("gen_defs")][:20]
     info["A"] = A
     b_mis, c_fail, n_model, n_spec, meta = [], [], 0, 0, {}
@@ -301,7 +326,11 @@ def check(prop, tier, seed):
                 m2 = json.load(open(os.path.join(wd2, "meta.json")))
                 bm, cm, _, _ = compare(wd2)
                 c_fail = list(m2.get("direct_failures", [])) + cm
+                for m in bm: m["seed"] = extra_seed
+                b_mis += bm[:10]
                 if c_fail: break
+            else:
+                b_mis.append(dict(op="<harness>", impl="exit %d (seed %d)" % (rc, extra_seed), model="", note=out[-800:]))
     known = load_known()
     new_fail, known_hit = [], {}
     for f in c_fail:
@@ -341,7 +370,7 @@ def check(prop, tier, seed):
                             model_mismatches=len(b_mis), direct_oracle_checks=meta.get("direct_checks", 0),
                             oracle_failures=len(c_fail), known_findings_reproduced=sorted(known_hit)),
         input_distribution=meta.get("stats", {}),
-        extractor=dict(ok=eok, failures=efails), panic_sites=A.get("panic_sites"), field_orders=A.get("field_orders"),
+        extractor=dict(ok=eok, failures=efails), source_changes=A.get("source_changes"), panic_sites=A.get("panic_sites"), field_orders=A.get("field_orders"),
         exhaustive=bool(meta.get("exhaustive", False)),
         explanation=P["level_text"],
     )
